@@ -5,6 +5,7 @@ import sys
 from fractions import Fraction
 
 from harness import vlib
+from harness import fpheap
 from harness.fpgen import (CLS, POW2_BITS, ODD_BITS, attempt, dump_fp, gen_fp, make_fp, key, rat)
 
 CM = {"sum": sum, "max": max, "min": min}
@@ -26,6 +27,7 @@ def dump_maps(src, folded):
     return {"unfold": unfold, "fold": fold}
 
 
+@fpheap.with_heap_cases(("repr",), 60, 1500)
 class C07(vlib.Check):
     id = "C07"
     props_modules = ["E3fpVerif.Props.C07"]
